@@ -240,7 +240,7 @@ func (b *unboundBuilder) Parse(s string) (*Literal, error) {
 		}
 		return b.Build(Blob, bs)
 	default:
-		return nil, nil
+		return nil, fmt.Errorf("literal.Parse: unknown literal type %q in %s", t, raw)
 	}
 }
 
